@@ -49,6 +49,9 @@ func namesElided(g *gram.Grammar) bool {
 }
 
 func c10Child(c *mon.Child) {
+	if c.Batch == 0 {
+		c10ParseableRoot(c)
+	}
 	nInputs := c.N(50, 100)
 	nSpacings := c.N(8, 14)
 	ks := []int{0, 1, 2, 5, participle.MaxLookahead, -1}
